@@ -289,8 +289,9 @@ ForkCount == Cardinality({b \in vers : b.min > 0})
 ValOf(b) == b.maj * (MaxMin + 1) + b.min + 2     \* a fresh value per block (1 = genesis value)
 MayBuildOn(p) == NextMinor(p.maj + 1) = 0 \/ (NextMinor(p.maj + 1) <= MaxMin /\ ForkCount < MaxForks)
 \* one block = a change function over (trie, key): keep / set a fresh value / delete / touch
-Changes == {f \in [Names \X Keys -> {"keep", "set", "del", "touch"}] :
-               Cardinality({x \in Names \X Keys : f[x] # "keep"}) <= MaxTouch}
+Pos == Names \X Keys
+Changes == UNION {{[x \in Pos |-> IF x \in S THEN g[x] ELSE "keep"] : g \in [S -> {"set", "del", "touch"}]}
+                  : S \in {T \in SUBSET Pos : Cardinality(T) <= MaxTouch}}
 BlockStep(p, f) ==
   \E b \in {V(p.maj + 1, NextMinor(p.maj + 1))} : \E pc \in {Logical(p)} :
   \E cur \in {[n \in Names |-> [k \in Keys |-> IF f[<<n, k>>] = "set" THEN ValOf(b)
